@@ -108,6 +108,11 @@ type c14Desc struct {
 	seenSrv map[string]bool
 	invalid map[string]string   // bit strings of the reached sets whose fresh instance is invalid -> token of its error text
 	fresh   map[string]c14Fresh // bit string -> fresh evaluation
+	// generated catchments (c14sized.go): an own budget of served samples (0: the run-wide budget c14ServedCap) and what a
+	// reader needs to replay a failing input on this scenario (action count, composition, the data set's files)
+	servedCap int
+	gen       J
+	genShown  bool
 }
 
 type c14Fresh struct {
@@ -262,7 +267,14 @@ var c14ServedCap = 40
 
 func (w *c14World) sampleServed(d *c14Desc, bits []bool, vars interface{}, attrs [][]interface{}) {
 	key := c14BitKey(bits)
-	if d.seenSrv[key] || w.stats["served_samples"] >= c14ServedCap {
+	if d.seenSrv[key] {
+		return
+	}
+	if d.servedCap > 0 {
+		if len(d.served) >= d.servedCap {
+			return
+		}
+	} else if w.stats["served_samples_shipped"] >= c14ServedCap {
 		return
 	}
 	arr, ok := vars.([]interface{})
@@ -299,6 +311,9 @@ func (w *c14World) sampleServed(d *c14Desc, bits []bool, vars interface{}, attrs
 	}
 	d.seenSrv[key] = true
 	w.stats["served_samples"]++
+	if d.servedCap == 0 {
+		w.stats["served_samples_shipped"]++
+	}
 	d.served = append(d.served, J{"bits": key, "totals": totals, "valid": valid})
 }
 
@@ -861,6 +876,18 @@ func (w *c14World) project(routeKind string, r c15Resp, d *c14Desc) J {
 			if routeKind == "model" && servedBits != nil && ok2 {
 				w.sampleServed(d, servedBits, x["DecisionVariables"], attrs)
 			}
+			// the served Encoding attribute against the canonical encoding of the served action set, computed by the
+			// harness's own encoder (c14CanonEncoding: no code of pkg/archive involved)
+			encOk := true
+			if servedBits != nil && ok2 {
+				for _, a := range attrs {
+					if a[0] == "Encoding" {
+						val, _ := a[1].(J)
+						text, isText := val["s"].(string)
+						encOk = isText && text == c14CanonEncoding(servedBits)
+					}
+				}
+			}
 			if !ok || !ok2 || len(x) != 4 {
 				return other("malformed solution document")
 			}
@@ -891,7 +918,7 @@ func (w *c14World) project(routeKind string, r c15Resp, d *c14Desc) J {
 				out["b"] = b
 				return out
 			}
-			out["b"] = J{"k": "model", "id": c14S(id), "active": c14MapJ(m), "vars_ok": varsOk, "attrs": attrs}
+			out["b"] = J{"k": "model", "id": c14S(id), "active": c14MapJ(m), "vars_ok": varsOk, "attrs": attrs, "enc_ok": encOk}
 			return out
 		}
 	}
@@ -911,6 +938,7 @@ type c14Engine struct {
 	name   string
 	dead   bool
 	chunks []int // how request bodies are delivered to this engine (c14DoChunked)
+	lastDesc *c14Desc // the scenario descriptor this engine served last (for oracle lines on generated catchments)
 }
 
 func (w *c14World) newEngine(name string) *c14Engine {
@@ -1019,6 +1047,9 @@ func (e *c14Engine) send(q c14Req) c15Resp {
 	step["resp"] = w.project(kind, r, e.currentDesc())
 	obs, raw := e.observe()
 	e.raw = raw
+	if d := e.currentDesc(); d != nil {
+		e.lastDesc = d
+	}
 	canon := c14Canon(obs)
 	if canon == e.last {
 		step["obs"] = nil
@@ -1074,7 +1105,8 @@ func (e *c14Engine) send(q c14Req) c15Resp {
 					if c["t"] == "s" {
 						text, _ = c["v"].(string)
 					}
-					if archive.New(len(d.actions)).Decode(text) != nil {
+					_, independentlyOk := c14IndependentDecode(len(d.actions), text)
+					if archive.New(len(d.actions)).Decode(text) != nil || !independentlyOk {
 						w.oracleLine("undecodable-encoding-accepted", q, r, abs, "POST /solutions answered 200 although the Actions cell ["+text+"] does not decode into the "+strconv.Itoa(len(d.actions))+" management actions of the scenario")
 						break
 					}
@@ -1097,6 +1129,32 @@ func (e *c14Engine) send(q c14Req) c15Resp {
 			w.oracleLine("unparsable-body-accepted", q, r, abs, "answered 200 although the body as a whole is not a "+view+" document the handler's parser accepts")
 		}
 	}
+	if r.Status == 200 && aborted == 0 && kind == "model" && q.Method == "PATCH" {
+		// an acknowledged encoding patch: every Encoding value is a well-formed encoding of the scenario's action count
+		// and the set served afterwards is the one the LAST of them denotes (decoder of the harness: c14IndependentDecode)
+		if d := e.currentDesc(); d != nil {
+			posted := attributes.Attributes{}
+			var last []bool
+			if json.Unmarshal([]byte(q.Body), &posted) == nil {
+				for _, a := range posted {
+					if a.Name != "Encoding" {
+						continue
+					}
+					text, isText := a.Value.(string)
+					bits, ok := c14IndependentDecode(len(d.actions), text)
+					if !isText || !ok {
+						w.oracleLine("undecodable-encoding-accepted", q, r, abs, fmt.Sprintf("PATCH /model answered 200 although its Encoding value %v is no encoding of the %d management actions of the scenario (%d hexadecimal 64-bit words)", a.Value, len(d.actions), (len(d.actions)+63)/64))
+						last = nil
+						break
+					}
+					last = bits
+				}
+			}
+			if served, ok := e.servedBits(d); last != nil && (!ok || c14BitKey(served) != c14BitKey(last)) {
+				w.oracleLine("patched-encoding-is-not-the-set-served", q, r, abs, fmt.Sprintf("PATCH /model answered 200, its (last) Encoding denotes the actions %v, but GET /model/actions/active then serves %v", c14ActiveIndices(last), c14ActiveIndices(served)))
+			}
+		}
+	}
 	if kind == "solution" && q.Method == "GET" {
 		w.solutionLookupOracle(q, r, abs, step, raw[c14Api+"/solutions"])
 	}
@@ -1108,6 +1166,9 @@ func (e *c14Engine) send(q c14Req) c15Resp {
 	}
 	if m, ok := obs["model"].(J)["b"].(J); ok && m["k"] == "model" && m["vars_ok"] == false {
 		w.oracleLine("served-valuation-differs-from-fresh-instance", q, r, abs, "GET /model serves decision variables that a fresh model in the served action set does not have")
+	}
+	if m, ok := obs["model"].(J)["b"].(J); ok && m["k"] == "model" && m["enc_ok"] == false {
+		w.oracleLine("served-encoding-not-canonical", q, r, abs, "GET /model serves an Encoding attribute that is not the canonical encoding (64 actions per ':'-separated upper-case hexadecimal word, action k = bit k mod 64 of word k div 64) of the action set it serves")
 	}
 	return r
 }
@@ -1250,6 +1311,15 @@ func (w *c14World) oracleLine(what string, q c14Req, r c15Resp, abs J, detail st
 			hist = hist[len(hist)-40:]
 		}
 		line["history"] = hist
+		if d := e.lastDesc; d != nil && d.gen != nil {
+			// a generated catchment: the data set the scenario text names (in full the first time, by name afterwards)
+			if d.genShown {
+				line["generated_catchment"] = J{"actions": d.gen["actions"], "see": "the first oracle line on this catchment"}
+			} else {
+				line["generated_catchment"] = d.gen
+				d.genShown = true
+			}
+		}
 		if len(e.chunks) > 0 {
 			line["delivered_in_chunks_of"] = e.chunks
 		}
@@ -1308,6 +1378,7 @@ type c14Gen struct {
 	scen    []string // usable scenario texts
 	badScen []string
 	tenMiB  map[string]bool // c14big.go: the families that get a 10 MiB body in the quick tier
+	bsets   [][]bool        // c14sized.go: while a generated catchment is in use, its word-boundary action sets
 }
 
 func c14NewGen(w *c14World, salt uint64) *c14Gen {
@@ -1346,6 +1417,10 @@ func (g *c14Gen) pick(xs []string) string { return xs[g.p.intn(len(xs))] }
 var c14Types = []string{"GullyRestoration", "HillSlopeRestoration", "RiverBankRestoration", "WetlandsEstablishment"}
 
 func (g *c14Gen) randomBits(d *c14Desc) []bool {
+	if len(g.bsets) > 0 && len(g.bsets[0]) == len(d.actions) && g.p.chance(0.4) {
+		// generated catchment: the sets that fill / empty / straddle the words of the encoding
+		return append([]bool{}, g.bsets[g.p.intn(len(g.bsets))]...)
+	}
 	bits := make([]bool, len(d.actions))
 	dens := g.p.float()
 	for i := range bits {
@@ -1690,8 +1765,10 @@ func (g *c14Gen) routeTriple(i int, reservedPatch string) {
 		{{"PATCH", c14Api + "/model", c14Json, `[{"Name":"Encoding","Value":"` + c14Encoding(target) + `"}]`}},
 	}
 	bodies := []string{}
+	engines := []*c14Engine{}
 	for ri, route := range routes {
 		e := w.newEngine(fmt.Sprintf("route-triple-%d-%d", i, ri))
+		engines = append(engines, e)
 		for _, q := range prefix {
 			e.send(q)
 		}
@@ -1705,12 +1782,17 @@ func (g *c14Gen) routeTriple(i int, reservedPatch string) {
 		e.finish("route-triple")
 	}
 	w.stats["route_triples"]++
-	if bodies[0] != bodies[1] || bodies[0] != bodies[2] {
+	// every readable resource (model, active / applicable actions, every per-subcatchment resource, the texts)
+	differing := c14RouteDiff(engines[0], engines[1])
+	if differing == "" {
+		differing = c14RouteDiff(engines[0], engines[2])
+	}
+	if bodies[0] != bodies[1] || bodies[0] != bodies[2] || differing != "" {
 		last := routes[1][len(routes[1])-1]
 		w.oracle++
 		emit(J{"kind": "oracle", "what": "routes-disagree", "shape": "route triple", "prefix_patch": reservedPatch,
-			"detail": "whole-table PUT, per-subcatchment PUTs and encoding PATCH reach action set " + c14BitKey(target) + " but GET /model differs between them",
-			"method": last.Method, "path": last.Path, "body": c14Short(last.Body), "models": bodies})
+			"detail": "whole-table PUT, per-subcatchment PUTs and encoding PATCH reach action set " + c14BitKey(target) + " but GET /model (or " + differing + ") differs between them",
+			"method": last.Method, "path": last.Path, "body": c14Short(last.Body), "models": bodies, "differing_resource": differing})
 	}
 }
 
@@ -1761,6 +1843,9 @@ func runC14(args []string) {
 	for i := 0; i < nhist; i++ {
 		g.summaryHistory(i, 3+g.p.intn(4), 0.2)
 	}
+	// the same kinds of streams on scenarios over generated catchments whose action count sits on and around the 64-bit
+	// word boundaries of the action encoding (c14sized.go); the data sets live until the end of the run
+	defer g.sizedCatchments(tier)()
 	g.largeBodies(tier, false)
 	// uploads that break off in the middle (since /repo 09859a0 the engine refuses them: fix C14-8)
 	g.abortedUploads()
